@@ -868,6 +868,12 @@ pub fn replay_file<E: Engine>(j: &J) -> Result<Vec<Violation>, String> {
     Ok(t.ctx.viol.iter().filter(|v| v.prop == prop).cloned().collect())
 }
 
+/// sample rates a deployment is likely to use: standard audio rates, power-of-two rates, control rates
+pub const COMMON_RATES: [f32; 30] = [
+    100.0, 200.0, 250.0, 500.0, 999.0, 1000.0, 1001.0, 2000.0, 4000.0, 8000.0, 8192.0, 10000.0, 11025.0, 12000.0, 16000.0, 16384.0,
+    22050.0, 24000.0, 31250.0, 32000.0, 32768.0, 44100.0, 48000.0, 64000.0, 65536.0, 88200.0, 96000.0, 131072.0, 176400.0, 192000.0,
+];
+
 // small helpers shared by the engines -----------------------------------------------------------
 
 pub fn f32j(x: f32) -> J {
